@@ -184,11 +184,23 @@ def run_chain(ctx, pydsdl, case, workdir):
     # order 'users-first': T000 uses T001 ... (every level is a nested reader); 'deps-first': T<n-1> uses T<n-2> ... so that every
     # dependency sorts before its user and is cached when the user is read (no nesting of readers, only of types)
     deps_first = case.get("order") == "deps-first"
+    # longest representation per level, so that a level may be delimited (@extent) instead of sealed: leaf first
+    mode = case.get("mode", "sealed")
+    is_delimited = lambda k: mode == "delimited" or (mode == "mixed" and k % 2 == 0)  # noqa
+    size = {}
+    prev = None
+    for i in (range(n) if deps_first else range(n - 1, -1, -1)):
+        if prev is None:
+            size[i] = 8
+        else:
+            element = size[prev] + (32 if is_delimited(prev) else 0)
+            size[i] = fan * ((8 + 2 * element) if case["array"] else element)
+        prev = i
     for i in range(n):
         j = i - 1 if deps_first else i + 1
         last = i == 0 if deps_first else i + 1 >= n
         nxt = "uint8 leaf\n" if last else "".join("%s.T%04d.1.0%s next%d\n" % (prefix, j, "[<=2]" if case["array"] else "", k) for k in range(fan))
-        (d / ("T%04d.1.0.dsdl" % i)).write_text(nxt + "@sealed\n")
+        (d / ("T%04d.1.0.dsdl" % i)).write_text(nxt + ("@extent %d\n" % size[i] if is_delimited(i) else "@sealed\n"))
     first = d / ("T%04d.1.0.dsdl" % (n - 1 if deps_first else 0))
     ctx.mon("chain")
     if not _STEP_METER:
@@ -293,7 +305,8 @@ def run_shard(ctx):
             break
         depth = rng.choice([3, 10, 30, 60, 80, 100, 150, 300, rng.randrange(40, 90), rng.randrange(40, 90)])
         case = {"chain": depth, "api": rng.choice(["read_namespace", "read_files"]), "array": rng.random() < 0.3, "fanout": rng.choice([1, 1, 2, 3]),
-                "nsdepth": rng.choice([0, 0, 1, 5, 30, 60]), "order": rng.choice(["users-first", "users-first", "deps-first"])}
+                "nsdepth": rng.choice([0, 0, 1, 5, 30, 60]), "order": rng.choice(["users-first", "users-first", "deps-first"]),
+                "mode": rng.choice(["sealed", "sealed", "delimited", "mixed"])}
         if case["order"] == "deps-first" and rng.random() < 0.3:
             case["chain"] = depth = rng.choice([900, 1100])
         try:
@@ -302,7 +315,7 @@ def run_shard(ctx):
         except CaseTimeout:
             ctx.inconclusive_case("watchdog", case)
             out = "timeout"
-        ctx.case(("chain", depth, case["api"], case["array"], case["fanout"], case["nsdepth"], case["order"]), True, classes=["kind-chain", "chain-depth-%s" % (depth if depth in (3, 10, 30, 60, 80, 100, 150, 300, 900, 1100) else "40..89"), "chain-fanout-%d" % case["fanout"], "chain-nsdepth-%d" % case["nsdepth"], "chain-" + case["order"], "chain-outcome-" + out.split(":")[0]])
+        ctx.case(("chain", depth, case["api"], case["array"], case["fanout"], case["nsdepth"], case["order"], case["mode"]), True, classes=["kind-chain", "chain-depth-%s" % (depth if depth in (3, 10, 30, 60, 80, 100, 150, 300, 900, 1100) else "40..89"), "chain-fanout-%d" % case["fanout"], "chain-nsdepth-%d" % case["nsdepth"], "chain-" + case["order"], "chain-" + case["mode"], "chain-outcome-" + out.split(":")[0]])
     if ctx.shard == 0:
         degenerate_targets(ctx, pydsdl)
     # hostile file names
